@@ -105,7 +105,7 @@ class DB:
                 f['nname'] = norm(f['name'])
                 self.inst[f['key']][f['inst']] = f
             for c in d['classes']:
-                self.classes.setdefault(c['inst'], c)
+                self.classes.setdefault((c['inst'], c.get('loc')), c)
             for a in d['all']:
                 self.allfns[a['key']] = a['name']
         self.byname = collections.defaultdict(list)    # normalised name -> [key]
@@ -401,6 +401,10 @@ class Tracer:
             if bid == f['exit'] or not [s for s in succ if s >= 0]:
                 out.extend(seqs); return
             cond = b.get('cond')
+            if all(s < 0 or cnt.get(s, 0) >= self.maxvisit for s in succ):
+                # a loop without exit edge (for(;;) left only by exception/return inside): keep what was seen as a cut, non-live trace
+                out.extend(sq + [Item(k='abort', why='loop bound (no exit edge)', depth=d)] for sq in seqs)
+                return
             for i, s in enumerate(succ):
                 if s < 0 or cnt.get(s, 0) >= self.maxvisit:
                     continue
